@@ -40,7 +40,7 @@ def repl_twins(rep, wd, cases, limit):
         script = "\n".join(lines + ['"<<END>>" print newline']) + "\n"
         r = subprocess.run([exe], input=script, stdout=subprocess.PIPE, stderr=subprocess.PIPE, text=True, cwd=scratch, timeout=60)
         out = r.stdout
-        return out.split("<<END>>\n")[-1] if "<<END>>" in out else "<<no end marker>> " + out[-200:]
+        return out.split('"<<END>>"\n')[-1] if '"<<END>>"' in out else "<<no end marker>> " + out[-200:]
     for c in cases:
         if c["kind"] != "build" or c["style"] != "repl" or c["verdict"].startswith("skip"):
             continue
